@@ -49,8 +49,7 @@ def run(chk, facts, tier):
                 def is_nonempty(a):
                     l, op, r = a
                     return op == '!=' and cval(r) == 0 and not isinstance(l, int) and l.k == 'BinaryOperator' and l.o == '&' and cval(l.c[1]) == 0xff00
-                from .lib.match import _expand_local_flags
-                extra = [a for a in ats if not is_new(a) and not is_nonempty(a) and not _expand_local_flags(fn, [a])]
+                extra = [a for a in ats if not is_new(a) and not is_nonempty(a) and not (not isinstance(a[0], int) and resolve_local(a[0]) is not None) and not (not isinstance(a[2], int) and resolve_local(a[2]) is not None)]
                 ok = new and nonempty and not extra and len(fn.body.calls('increment_receive_packet_counter')) == 1
                 chk.instance('rx-counter-site', fn, 'increment_receive_packet_counter() under exactly (SN == expected) && (length != 0)', ok, '' if ok else 'guards: new=%s length!=0=%s, %d further condition(s): a new non-empty PDU that the central encrypted with the next counter value is not counted (or a retransmission/empty PDU is), the nonces of both sides diverge' % (new, nonempty, len(extra)), node=c, key='rx in received')
                 togg = [st for tgt, op, val, st in stores(fn.body) if target_name(tgt) == 'next_expected_sequence_number_']
